@@ -2,7 +2,7 @@
    Theorems only; proofs are [exact] of lemmas proved elsewhere, or vm_compute witnesses. *)
 From Coq Require Import List ZArith Bool.
 From Verif Require Import Base.Sx Base.GoVal Base.F64 Schema.Ast Schema.Build Schema.Pipeline Schema.Draft4
-  Schema.Classes Schema.PipelineFacts Schema.PipelineTerm Schema.Agreement Schema.AgreementRef Schema.AgreementDec Schema.AgreementFlocq.
+  Schema.Classes Schema.PipelineFacts Schema.PipelineTerm Schema.AgreementData Schema.Agreement Schema.AgreementRef Schema.AgreementDec Schema.AgreementFlocq.
 Import ListNotations.
 Open Scope Z_scope.
 
@@ -90,7 +90,7 @@ Proof. vm_compute. reflexivity. Qed.
 (* ---- and it holds on a fragment ---- *)
 
 (* On schemas of the class [clean] - no references, formats, nullable, patternProperties, dependencies, oneOf,
-   uniqueItems, defaults under properties, empty tuples, nor a schema next to additional*: false; type, enum, numeric
+   defaults under properties, empty tuples, nor a schema next to additional*: false; type, enum, numeric
    and string keywords, items (one or positional) with additionalItems, properties / required / additionalProperties /
    min- and maxProperties, allOf, anyOf, not, at every depth - and JSON data of the class [jd] - objects with distinct
    members none of which is called "$schema", "id" or "headers"; null anywhere in the data when [allow_null] is set, in
@@ -102,6 +102,7 @@ Theorem C01_agreement_on_the_clean_fragment_partial :
   forall (fin : f64 -> Prop) (allow_null : bool) OR N opt defs,
   opt_array_must_have_items opt = false -> opt_obj_array_type_check opt = false ->
   (forall a b, fin a -> fin b -> n_lt N a b = negb (n_le N b a)) ->
+  (forall a b, fin a -> fin b -> n_eq N a b = n_eq N b a) ->
   forall n fuel s, clean fin allow_null OR n s -> (n < fuel)%nat -> forall p q d, jd fin allow_null d ->
   exists r, sv_validate OR N opt defs fuel s p q d = Ok r /\ d4 OR N defs fuel s d = Some (r_valid r).
 Proof. exact clean_fragment_agrees. Qed.
@@ -113,6 +114,7 @@ Theorem C01_agreement_with_references_partial :
   forall (fin : f64 -> Prop) (allow_null : bool) OR N opt defs (K : nat),
   opt_array_must_have_items opt = false -> opt_obj_array_type_check opt = false ->
   (forall a b, fin a -> fin b -> n_lt N a b = negb (n_le N b a)) ->
+  (forall a b, fin a -> fin b -> n_eq N a b = n_eq N b a) ->
   forall n f1 f2 s, cleanr fin allow_null OR defs K n s -> (n + K < f1)%nat -> (n * S K <= f2)%nat ->
   forall p q d, jd fin allow_null d ->
   exists r, sv_validate OR N opt defs f1 s p q d = Ok r /\ d4 OR N defs f2 s d = Some (r_valid r).
@@ -133,7 +135,7 @@ Theorem C01_agreement_for_the_binary64_model : forall allow_null OR opt defs K n
   exists r, sv_validate OR flocq_ops opt defs f1 s p q d = Ok r /\ d4 OR flocq_ops defs f2 s d = Some (r_valid r).
 Proof.
   intros an OR opt defs K n f1 f2 s fuel d H1 H2 Hc Hd Hf1 Hf2 p q.
-  apply (agreement_with_references (finP f_finite) an OR flocq_ops opt defs K H1 H2 flocq_order_total n f1 f2 s
+  apply (agreement_with_references (finP f_finite) an OR flocq_ops opt defs K H1 H2 flocq_order_total flocq_eq_sym n f1 f2 s
            (cleanr_b_sound f_finite an OR defs K n s Hc) Hf1 Hf2 p q d (jd_b_sound f_finite an fuel d Hd)).
 Qed.
 Print Assumptions C01_agreement_for_the_binary64_model.
